@@ -70,3 +70,9 @@ ENTRIES += [
     N('abort-closes-stream-recycle-clears', "        super().abort()\n\n        self._session_state = SessionState.aborted\n\n    def recycle(self):\n        if not self.done():\n            super().abort()\n            warnings.warn(_('HTTP session did not complete.'))\n\n        super().recycle()\n",
       "        super().abort()\n\n        if self._stream:\n            self._stream.close()\n\n        self._session_state = SessionState.aborted\n\n    def recycle(self):\n        if not self.done():\n            super().abort()\n            warnings.warn(_('HTTP session did not complete.'))\n\n        super().recycle()\n        self._stream = None\n", H),
 ]
+
+ENTRIES += [
+    B('exit-abort-only-for-exception', "        if exc_val and not isinstance(exc_val, StopIteration):", "        if isinstance(exc_val, Exception) and \\\n                not isinstance(exc_val, StopIteration):", 'C12-D8', A),
+    N('exit-abort-type-is-not-none', "        if exc_val and not isinstance(exc_val, StopIteration):", "        if exc_type is not None and not issubclass(exc_type, StopIteration):", A),
+    N('exit-abort-baseexception', "        if exc_val and not isinstance(exc_val, StopIteration):", "        if isinstance(exc_val, BaseException) and not isinstance(exc_val, StopIteration):", A),
+]
